@@ -349,7 +349,7 @@ def make_e(params, part, nparts):
     NA = len(alpha)
     L = params['L']
 
-    def h(n: int, o1: int, o2: int, o3: int, o4: int, gh: int):
+    def h(n: int, o1: int, o2: int, o3: int, o4: int, gh: int = 0):
         c1 = pick(o1, NA)
         assume(c1 % nparts == part)
         ln = pick(n, L) + 1
